@@ -65,6 +65,8 @@ func (f *Frame) call(ins ssa.Instruction, c *ssa.CallCommon, st *State, reach Te
 		default:
 			f.safety("nil", "callfn:"+shortVal(c.Value), reach, f.notNil(fv), ins.Pos())
 		}
+		// a callback may panic: the function is then left through its deferred calls
+		f.panicExit(st, reach, ins.Pos(), shortVal(c.Value))
 		// parameter contract?
 		if r, ok := f.callParamContract(c, args, resT, st, reach, ins.Pos()); ok {
 			return r
@@ -72,6 +74,32 @@ func (f *Frame) call(ins ssa.Instruction, c *ssa.CallCommon, st *State, reach Te
 		return f.callUnknown("dynamic call "+shortVal(c.Value), resT, st, false)
 	}
 	return f.callStatic(callee, binds, args, resT, st, reach, ins.Pos())
+}
+
+// panicExit checks the `panics` clauses of the function under verification on
+// the exit that is taken when the callback called at this point panics: the
+// deferred calls registered so far run (on a copy of the state), then the
+// clauses must hold.
+func (f *Frame) panicExit(st *State, reach Term, pos token.Pos, what string) {
+	con := f.vc.con
+	if !f.top || con == nil || len(con.Panics) == 0 || f.vc.topEnv == nil {
+		return
+	}
+	cur := new(State)
+	*cur = *st
+	cur = cur.derive()
+	f.runDefers(cur, reach)
+	env := f.vc.topEnv.clone()
+	env.st = cur
+	for i, cl := range con.Panics {
+		t, err := env.trBool(cl.Text)
+		if err != nil {
+			f.vc.failed = fmt.Errorf("%s: panics %q: %v", cl.Line, cl.Text, err)
+			return
+		}
+		name := fmt.Sprintf("panics#%s@%s", clauseName(cl, i), f.vc.site("callback:"+what))
+		f.vc.oblige("panics", name, mergeTags(cl.Tags, f.tags), reach, t, f.pos(pos)).Desc = cl.Text
+	}
 }
 
 func (f *Frame) notNil(t Term) Term {
@@ -107,7 +135,24 @@ func (f *Frame) callStatic(callee *ssa.Function, binds []Value, args []Value, re
 	if callee.Blocks != nil && f.canInline(callee) {
 		return f.inline(callee, binds, args, resT, st, reach)
 	}
-	return f.callUnknown(key, resT, st, f.vc.w.knownPure(key))
+	res := f.callUnknown(key, resT, st, f.vc.w.knownPure(key))
+	if callee.Pkg != nil && strings.HasPrefix(callee.Pkg.Pkg.Path(), repoModule) && sweepScope(key) {
+		// a repo function without contract: its own sweep proves post#wf (verify.go),
+		// so the caller may assume its results are well-formed BSON values
+		f.vc.assumedWF[key] = true
+		sig := callee.Signature.Results()
+		switch r := res.(type) {
+		case Term:
+			f.vc.assume(tImp(reach, f.wfTerm(r, sig.At(0).Type(), false)))
+		case Tuple:
+			for i, x := range r {
+				if t, ok := x.(Term); ok && i < sig.Len() {
+					f.vc.assume(tImp(reach, f.wfTerm(t, sig.At(i).Type(), false)))
+				}
+			}
+		}
+	}
+	return res
 }
 
 func (f *Frame) canInline(callee *ssa.Function) bool {
@@ -261,10 +306,19 @@ func (f *Frame) resultHavoc(resT types.Type, st *State) Value {
 
 func (f *Frame) callByContract(con *Contract, callee *ssa.Function, sig *types.Signature, key string, args []Value, resT types.Type, st *State, reach Term, pos token.Pos, invoke bool) Value {
 	f.vc.assumed[key] = true
-	for _, u := range con.Uses {
-		f.vc.uses[u] = true
-	}
+	// (the spec modules a caller needs are those of the symbols its translated
+	// clauses mention; the callee's own `uses` list is about the callee's body)
 	env := f.calleeEnv(con, callee, sig, args, invoke)
+	for _, l := range con.Lets {
+		text := l[1]
+		env.vars[l[0]] = EV{V: letFn(func(e *Env) (Term, types.Type) {
+			t, ty, err := e.trTyped(text, "")
+			if err != nil {
+				panic(err)
+			}
+			return t, ty
+		})}
+	}
 	pre := new(State)
 	*pre = *st
 	env.st = pre
@@ -469,6 +523,9 @@ func (f *Frame) calleeFrame(tg modTarget, st *State, reach Term, pos token.Pos, 
 		if m.all {
 			return
 		}
+	}
+	if strings.HasPrefix(tg.key, "X:") {
+		return // ghost state is not part of anybody's frame
 	}
 	name := "frame@" + f.prefix + top.site("call:"+con.Func)
 	switch {
@@ -675,7 +732,7 @@ func (f *Frame) builtinAppend(c *ssa.CallCommon, args []Value, st *State, reach 
 	oldContent := T("(Array Int "+es+")", "(select %s (Sl.base %s))", old.S, s.S)
 	tContent := T("(Array Int "+es+")", "(select %s (Sl.base %s))", old.S, t.S)
 	// elements: [newOff, newOff+len s) from s ; then from t ; elsewhere (in place) unchanged
-	f.vc.assume(T(sBool, "(forall ((k!q Int)) (! (= (select %s k!q) (ite (and (<= %s k!q) (< k!q (+ %s (Sl.len %s)))) (select %s (+ (Sl.off %s) (- k!q %s))) (ite (and (<= (+ %s (Sl.len %s)) k!q) (< k!q (+ %s %s))) (select %s (+ (Sl.off %s) (- k!q (+ %s (Sl.len %s))))) (ite %s (select %s k!q) (select %s k!q))))) :pattern ((select %s k!q))))",
+	f.vc.assumeOwned(content, T(sBool, "(forall ((k!q Int)) (! (= (select %s k!q) (ite (and (<= %s k!q) (< k!q (+ %s (Sl.len %s)))) (select %s (+ (Sl.off %s) (- k!q %s))) (ite (and (<= (+ %s (Sl.len %s)) k!q) (< k!q (+ %s %s))) (select %s (+ (Sl.off %s) (- k!q (+ %s (Sl.len %s))))) (ite %s (select %s k!q) (select %s k!q))))) :pattern ((select %s k!q))))",
 		content.S, newOff.S, newOff.S, s.S, oldContent.S, s.S, newOff.S,
 		newOff.S, s.S, newOff.S, n.S, tContent.S, t.S, newOff.S, s.S,
 		fits.S, oldContent.S, content.S, content.S))
@@ -701,7 +758,7 @@ func (f *Frame) seqAppend(s, t Term) Term {
 	}
 	ws := f.vc.sorts.wordSort()
 	k := Term{"k!q", ws}
-	f.vc.assume(T(sBool, "(forall ((k!q %s)) (! (= %s (ite %s %s %s)) :pattern (%s)))", ws,
+	f.vc.assumeOwned(r, T(sBool, "(forall ((k!q %s)) (! (= %s (ite %s %s %s)) :pattern (%s)))", ws,
 		f.seqAt(r, k).S, f.wLt(k, ls).S, f.seqAt(s, k).S, f.seqAt(t, f.wSub(k, ls)).S, f.seqAt(r, k).S))
 	f.vc.declareFunOnce("isnil."+s.Sort, []string{s.Sort}, sBool)
 	f.vc.assume(tImp(T(sBool, "(isnil.%s %s)", s.Sort, r.S), tEq(f.wAdd(ls, lt), f.wordLit(0))))
@@ -719,7 +776,7 @@ func (f *Frame) builtinCopy(c *ssa.CallCommon, args []Value, st *State, reach Te
 		f.frameCheck(key, T(sInt, "(Sl.base %s)", dst.S), st, tAnd(reach, T(sBool, "(> %s 0)", n.S)), pos)
 		old := st.get(key)
 		content := f.vc.freshConst("copy.content", "(Array Int "+es+")")
-		f.vc.assume(T(sBool, "(forall ((k!q Int)) (! (= (select %s k!q) (ite (and (<= (Sl.off %s) k!q) (< k!q (+ (Sl.off %s) %s))) (select (select %s (Sl.base %s)) (+ (Sl.off %s) (- k!q (Sl.off %s)))) (select (select %s (Sl.base %s)) k!q))) :pattern ((select %s k!q))))",
+		f.vc.assumeOwned(content, T(sBool, "(forall ((k!q Int)) (! (= (select %s k!q) (ite (and (<= (Sl.off %s) k!q) (< k!q (+ (Sl.off %s) %s))) (select (select %s (Sl.base %s)) (+ (Sl.off %s) (- k!q (Sl.off %s)))) (select (select %s (Sl.base %s)) k!q))) :pattern ((select %s k!q))))",
 			content.S, dst.S, dst.S, n.S, old.S, src.S, src.S, dst.S, old.S, dst.S, content.S))
 		st.set(key, f.vc.define(key, T(old.Sort, "(store %s (Sl.base %s) %s)", old.S, dst.S, content.S)))
 		return n
@@ -732,10 +789,10 @@ func (f *Frame) builtinCopy(c *ssa.CallCommon, args []Value, st *State, reach Te
 			ws := f.vc.sorts.wordSort()
 			k := Term{"k!q", ws}
 			if src.Sort == dst.Sort {
-				f.vc.assume(T(sBool, "(forall ((k!q %s)) (! (= %s (ite (and %s %s) %s %s)) :pattern (%s)))", ws,
+				f.vc.assumeOwned(r, T(sBool, "(forall ((k!q %s)) (! (= %s (ite (and %s %s) %s %s)) :pattern (%s)))", ws,
 					f.seqAt(r, k).S, f.wLe(f.wordLit(0), k).S, f.wLt(k, n).S, f.seqAt(src, k).S, f.seqAt(dst, k).S, f.seqAt(r, k).S))
 			} else {
-				f.vc.assume(T(sBool, "(forall ((k!q %s)) (! (=> (not (and %s %s)) (= %s %s)) :pattern (%s)))", ws,
+				f.vc.assumeOwned(r, T(sBool, "(forall ((k!q %s)) (! (=> (not (and %s %s)) (= %s %s)) :pattern (%s)))", ws,
 					f.wLe(f.wordLit(0), k).S, f.wLt(k, n).S, f.seqAt(r, k).S, f.seqAt(dst, k).S, f.seqAt(r, k).S))
 			}
 			st.set(key, r)
